@@ -138,10 +138,46 @@ Definition run_array (r : list Z) : list Z :=
   | _ => [-999]
   end.
 
+(* mode 4: extraction whose trace VALUES are not integers (preprocess_steps, .cbin with gains): same input
+   as mode 1 followed by the step codes (n :: codes); the model gives everything but the values:
+   output: [0] | 1 :: picks_ok :: table ++ plan ++ chan_map ++ [nu; ngroups] ++ template ranges ++ loaded rows x 4
+           plan = n :: (waveform_index chunk snippet_start snippet_len local_column_of_window_start peak)*  *)
+Definition run_plan (r : list Z) : list Z :=
+  match r with
+  | ns :: nc :: to :: L :: maxwf :: size :: r2n :: r2d :: stride :: r1 =>
+      let '(geom, r2) := dec_pairs r1 in
+      let '(spikes, r3) := dec_triples r2 in
+      let '(picks, r4) := dec_listlist r3 in
+      let '(labels, r5) := dec_optlist r4 in
+      let '(indices, r6) := dec_optlist r5 in
+      let '(steps, _) := dec_zlist r6 in
+      let P := mkCfg ns nc to L maxwf size r2n r2d geom spikes in
+      let ch := choose_data picks in
+      let st := sorted_table ch P in
+      let idf := fun (_ _ : Z) (s : Z -> Z -> Z) => s in
+      match traces_pp Z (fun _ _ => 0) idf idf idf idf idf ch P steps, iwc st, chan_map ch P with
+      | Some mem, Some iw, Some cm =>
+          let tr := template_ranges ch P in
+          [1; enc_bool (picks_ok P picks)]
+          ++ enc_list (fun e => [r_index (fst e); r_sample (fst e); r_cluster (fst e);
+                                 r_chan (fst e); r_wfi (fst e); snd e]) (combine st iw)
+          ++ enc_list (fun x => x) (gather_plan ch P)
+          ++ [zlen cm; n_nbors geom r2n r2d] ++ concat cm
+          ++ [zlen (unit_ids P); zlen tr] ++ flat_map (fun p => [fst p; snd p]) tr
+          ++ enc_zlist (load_rows st iw labels indices)
+          ++ enc_zlist (load_rows st iw None None)
+          ++ enc_zlist (load_rows st iw labels None)
+          ++ enc_zlist (load_rows st iw None indices)
+      | _, _, _ => [0]
+      end
+  | _ => [-999]
+  end.
+
 Definition run (inp : list Z) : list Z :=
   match inp with
   | 1 :: r => run_extract r
   | 3 :: r => run_array r
+  | 4 :: r => run_plan r
   | 2 :: r2n :: r2d :: padv :: r =>
       let '(geom, _) := dec_pairs r in
       let ci := channel_index geom r2n r2d padv in
